@@ -342,6 +342,13 @@ func c05Base(c *Ctx, p *Prog) {
 			}
 		}
 		if hasSlash == nil || o.Term != "return" {
+			// a search for the first of several separators is a different decision altogether
+			for _, call := range append(callsIn(base, "bytes", "", "IndexAny"), callsIn(base, "strings", "", "IndexAny")...) {
+				if set, ok := constString(call.Common().Args[1]); ok && strings.Contains(set, "/") && set != "/" {
+					c.Bad(R, "Base:slash-test", p.pos(call.Pos()), fmt.Sprintf("Base cuts at the first of the characters %q, not at the first '/': a name whose base contains one of the others before its first '/' (Enc-JSON/size=4) gets a different base from Base than from Parts, so .name and the decomposition disagree", set))
+					return
+				}
+			}
 			c.Undecided(R, "Base:atoms", site, "Base does not decide on the presence of '/'")
 			return
 		}
@@ -1041,6 +1048,135 @@ func c05Lookup(c *Ctx, p *Prog, R string) {
 		}
 	}
 	c.Floor(R, "part accesses in the scan loop", nScan, 1)
+	// the step of the scan as a table: a part is taken exactly when it has the prefix — nothing else decides
+	if lib == nil {
+		for _, lp := range naturalLoops(fn) {
+			hasTest := false
+			for b := range lp.Blocks {
+				for _, in := range b.Instrs {
+					if call, ok := in.(*ssa.Call); ok && (objIs(calleeObj(&call.Call), "bytes", "", "HasPrefix") || objIs(calleeObj(&call.Call), "bytes", "", "CutPrefix")) && isPrefix(call.Call.Args[1]) {
+						hasTest = true
+					}
+				}
+			}
+			start := loopBodyStart(lp)
+			if !hasTest || start == nil {
+				continue
+			}
+			outs, why := e6Enumerate(func() *e6Interp {
+				return &e6Interp{PureCall: func(f *types.Func) bool { return true }}
+			}, start, lp.Header, iterStop(lp, start), 128)
+			if why != "" {
+				c.Undecided(R, "lookup:step", site, why)
+				continue
+			}
+			// the operands of the prefix test, to recognise a length pre-check on the same two texts
+			partStr, prefixStr := "", ""
+			for _, o := range outs {
+				for _, k := range o.AtomKeys() {
+					s := o.AtomSyms[k]
+					var call *Sym
+					if s.Op == "call" && strings.HasPrefix(s.Name, "bytes.HasPrefix") {
+						call = s
+					}
+					if s.Op == "extract" && s.Idx == 1 && len(s.Args) == 1 && s.Args[0].Op == "call" && strings.HasPrefix(s.Args[0].Name, "bytes.CutPrefix") {
+						call = s.Args[0]
+					}
+					if call != nil && len(call.Args) == 2 {
+						partStr, prefixStr = call.Args[0].String(), call.Args[1].String()
+					}
+				}
+			}
+			// lenGuard: a comparison of the two lengths; returns whether, with the given truth value, the part can still
+			// have the prefix (it can when its length is the prefix's or more), and whether the comparison is sound
+			// (it must not rule out a part as long as the prefix or longer)
+			lenGuard := func(s *Sym, v bool) (isGuard, canHave, sound bool) {
+				if s.Op != "binop" || len(s.Args) != 2 {
+					return
+				}
+				isLenOf := func(x *Sym, of string) bool {
+					return x.Op == "call" && x.Name == "len" && len(x.Args) == 1 && x.Args[0].String() == of
+				}
+				var partLeft bool
+				switch {
+				case isLenOf(s.Args[0], partStr) && isLenOf(s.Args[1], prefixStr):
+					partLeft = true
+				case isLenOf(s.Args[1], partStr) && isLenOf(s.Args[0], prefixStr):
+				default:
+					return
+				}
+				truth := func(d int) bool {
+					a, b := 3+d, 3
+					if !partLeft {
+						a, b = 3, 3+d
+					}
+					switch s.Tok {
+					case token.LSS:
+						return a < b
+					case token.LEQ:
+						return a <= b
+					case token.GTR:
+						return a > b
+					case token.GEQ:
+						return a >= b
+					case token.EQL:
+						return a == b
+					case token.NEQ:
+						return a != b
+					}
+					return false
+				}
+				isGuard = true
+				// with this truth value, which length differences are possible?
+				possible := map[int]bool{}
+				for _, d := range []int{-1, 0, 1} {
+					if truth(d) == v {
+						possible[d] = true
+					}
+				}
+				canHave = possible[0] || possible[1]
+				// sound: the comparison does not separate d = 0 from d = 1 (both can have the prefix)
+				sound = truth(0) == truth(1)
+				return
+			}
+			for i, o := range outs {
+				var has *bool
+				extra := ""
+				for _, k := range o.AtomKeys() {
+					v := o.Assign[k]
+					s := o.AtomSyms[k]
+					vv := v
+					str := s.String()
+					switch {
+					case s.Op == "call" && strings.HasPrefix(s.Name, "bytes.HasPrefix"):
+						has = &vv
+					case s.Op == "extract" && s.Idx == 1 && strings.Contains(str, "bytes.CutPrefix"):
+						has = &vv
+					default:
+						if g, canHave, sound := lenGuard(s, v); g && sound {
+							// a part shorter than the prefix cannot have it: the pre-check answers the prefix test
+							if !canHave && has == nil {
+								f := false
+								has = &f
+							}
+							continue
+						}
+						extra = k
+					}
+				}
+				key := fmt.Sprintf("lookup:step#%d", i+1)
+				taken := o.Term == "return"
+				switch {
+				case extra != "":
+					c.Bad(R, key, site, "whether a part of the name is taken also depends on "+truncate(extra, 140)+": the first part that has the prefix must decide (a part that is exactly the prefix — an empty value, /a= — is a match like any other; skipping it hands out a later segment's value)")
+				case has == nil:
+					c.Bad(R, key, site, "a step of the scan decides without testing the part for the prefix")
+				default:
+					c.Check(taken == *has, R, key, site, fmt.Sprintf("has the prefix=%v: taken=%v", *has, taken), fmt.Sprintf("a part that has the prefix=%v is taken=%v", *has, taken))
+				}
+			}
+		}
+	}
 	c.Check(okFwd && okRet, R, "lookup:first-match", site, "parts are scanned in order and the first part with the prefix decides",
 		fmt.Sprintf("the sub-name lookup does not return the first part that has the prefix (ascending scan: %v, returns text after the prefix on a match: %v): with a repeated key /k yields a later segment's value", okFwd, okRet))
 	// -N form: only for /gomaxprocs, on the last part, when it starts with '-'. The function that returns last[1:] is the
